@@ -25,7 +25,7 @@ class C16(object):
     def gen(self, rng, tier):
         n_cases = 110 if tier == 'quick' else 1500
         for _ in range(n_cases):
-            n = rng.choice([2, 2, 3])
+            n = rng.choice([2, 3, 3])
             style = rng.choice(['block', 'function', 'full', 'sparse', 'giant'])
             a = rng.choice([2, 3])
             full = [list(o) for o in itertools.product(range(a), repeat=n)]
@@ -61,10 +61,14 @@ class C16(object):
                 groups = [[0], [1]]
             else:
                 groups = rng.choice([[[0], [1]], [[0], [1], [2]], [[0, 1], [2]], [[0], [1, 2]], [[0, 1], [1, 2]]])
+            cgroups = rng.choice(['singletons', 'given'])
+            if kind == 'common' and n == 3 and rng.random() < 0.6:
+                # two of the three variables: the left-out one must not influence K, F, M
+                groups, cgroups = rng.choice([[[0], [1]], [[0], [2]], [[1], [2]]]), 'given'
             yield {'klass': rng.choice(['str', 'tuple']), 'n': n, 'outs': outs, 'pmf': [str(p) for p in pmf],
                    'style': style, 'kind': kind, 'groups': groups, 'idx': rng.choice([-1] + list(range(n + 1))),
                    'names': rng.random() < 0.3, 'rvs': [0] if n == 2 else rng.choice([[0], [0, 1]]),
-                   'about': [n - 1]}
+                   'about': [n - 1], 'cgroups': cgroups}
 
     def shrink(self, case):
         return []
@@ -222,28 +226,41 @@ class C16(object):
         dit = import_dit()
         import dit.multivariate as mv
         d = self.build(case)
-        groups = [[i] for i in range(case['n'])]
+        n = case['n']
+        groups = [[i] for i in range(n)]
+        cg = case['groups']
+        if case.get('cgroups') == 'given' and len(set(sum(cg, []))) == len(sum(cg, [])):
+            groups = cg                 # disjoint groups, possibly not covering every variable
         g = [self.nm(case, x) for x in groups]
+        union = sorted(set(sum(groups, [])))
+        r.features.append('groups=%s' % groups)
         r.nontrivial = len(case['outs']) >= 4
         K = float(mv.gk_common_information(d, g))
         J = float(mv.caekl_mutual_information(d, g))
         B = float(mv.dual_total_correlation(d, g))
         F = float(mv.functional_common_information(d, g))
         M = float(mv.mss_common_information(d, g))
-        Hh = float(mv.entropy(d))
+        Hh = float(mv.entropy(d, self.nm(case, union)))
         vals = [('K', K), ('J', J), ('B', B), ('F', F), ('M', M), ('H', Hh)]
         r.detail = dict(vals)
         for (a, x), (b, y) in zip(vals, vals[1:]):
             if x > y + 1e-8:
                 r.oracle_fail = 'chain K <= J <= B <= F <= M <= H broken: %s = %r > %s = %r' % (a, x, b, y)
                 return
-        # M: entropy of the joint minimal sufficient statistic (reference through the model's classes)
         rows = [(list(o), float(Fraction(p))) for o, p in zip(case['outs'], case['pmf'])]
-        n = case['n']
+        # K: entropy of the connected components of the support (reference as in run_meet)
+        comp = self.components([list(o) for o in case['outs']], groups)
+        ps = {tuple(o): float(Fraction(p)) for o, p in zip(case['outs'], case['pmf'])}
+        refK = -sum(m * math.log2(m) for m in [sum(ps[tuple(o)] for o in c) for c in comp] if m > 0)
+        if abs(K - refK) > 1e-9:
+            r.oracle_fail = 'gk_common_information %r, entropy of the connected components of the support %r' % (K, refK)
+            return
+        # M: entropy of the joint minimal sufficient statistic of each group ABOUT THE OTHER GROUPS
+        # (reference through the model's classes)
         tab = [[o, q(Fraction(p))] for o, p in zip(case['outs'], case['pmf'])]
         labels = []
-        for i in range(n):
-            cl = drv.call('mss', [tab, [i], [j for j in range(n) if j != i]])
+        for gi in groups:
+            cl = drv.call('mss', [tab, gi, sorted(set(union) - set(gi))])
             lab = {}
             for k, c in enumerate(cl):
                 for o in c:
@@ -256,6 +273,39 @@ class C16(object):
         refM = -sum(p * math.log2(p) for p in joint.values() if p > 0)
         if abs(M - refM) > 1e-9:
             r.mismatch = 'mss_common_information %r, entropy of the joint of the model\'s sufficient statistics %r' % (M, refM)
+        # the values depend on the joint probabilities only: the default (Cartesian) sample space, stored zeros (dense)
+        # and the marginal on the variables of the groups give the same K, F, M
+        klass = case['klass']
+        outs = [gen.to_py(o, klass) for o in case['outs']]
+        pm = [float(Fraction(p)) for p in case['pmf']]
+        variants = [('default sample space', dit.Distribution(outs, pm))]
+        dn = dit.Distribution(outs, pm)
+        dn.make_dense()
+        variants.append(('dense with stored zeros', dn))
+        for label, dv in variants:
+            if case['names']:
+                dv.set_rv_names('XYZ'[:n])
+            for name, f, want in (('gk_common_information', mv.gk_common_information, K),
+                                  ('mss_common_information', mv.mss_common_information, M),
+                                  ('functional_common_information', mv.functional_common_information, F)):
+                if name == 'functional_common_information' and len(dv.outcomes) > 12:
+                    continue
+                v = float(f(dv, g))
+                if abs(v - want) > 1e-8:
+                    r.oracle_fail = '%s = %r on the %s, %r on the pruned one' % (name, v, label, want)
+                    return
+        if len(union) < n:
+            dm = d.marginal(self.nm(case, union))
+            pos = {v: i for i, v in enumerate(union)}
+            gm = [[pos[i] for i in x] for x in groups]
+            if case['names']:
+                gm = [[dm.get_rv_names()[i] for i in x] for x in gm]
+            for name, f, want in (('gk_common_information', mv.gk_common_information, K),
+                                  ('mss_common_information', mv.mss_common_information, M)):
+                v = float(f(dm, gm))
+                if abs(v - want) > 1e-8:
+                    r.oracle_fail = '%s = %r on the marginal over the groups\' variables, %r on the full distribution' % (name, v, want)
+                    return
 
 
 PROP = C16()
